@@ -328,6 +328,8 @@ def leaves(tier):
           ["Slice", [6], [[4, 0, -2]]], ["Embed", [3, 3], [[1, None, None], [None, 2, None]]]]
     q += [["ArrayToBlocks", [5], [2], [1]], ["ArrayToBlocks", [5], [2], [2]], ["ArrayToBlocks", [6], [2], [3]],
           ["ArrayToBlocks", [2, 4, 3], [2, 2], [2, 1]], ["BlocksToArray", [5], [3], [1]], ["BlocksToArray", [4, 4], [2, 2], [2, 2]]]
+    # non-overlapping blocks that do not tile the array: an uncovered tail of two or more samples at the END of the axis
+    q += [["ArrayToBlocks", [5], [3], [3]], ["BlocksToArray", [6], [4], [4]], ["ArrayToBlocks", [8], [3], [3]], ["BlocksToArray", [6, 5], [4, 2], [4, 2]]]
     for n in (4, 5):
         for b in (1, 2, 3):
             for s in (1, 2, 3, 4):
